@@ -52,4 +52,19 @@ theorem durable_no_conflict (M : Machine S) (hs : ReplaySafe M) (ne : NoEquivoca
   obtain ⟨sd, Ed, trd, p, insd, _, hW, _, _, _, hp, hview, _, hv⟩ := hd
   exact no_conflict_core M hs ne sd Ed _ trd hW n p rfl hp (by rw [hview]) hist hv cont okc
 
+/-- Timers: the recovery arms exactly the timers the uncrashed reference run armed for the height
+the chain is waiting for, and no timer the reference run did not arm. -/
+theorem durable_timers (M : Machine S) (hs : ReplaySafe M) (c0 : Nat) (n : Node)
+    (hist : List Effect) (hd : Durable M c0 n hist) :
+    ∃ insd, ListenOK M (M.init (c0 + 1)) insd ∧
+      entriesOfRecs n.store.flushed = loggedEntries M (M.init (c0 + 1)) insd ∧
+      (∀ t ∈ timersOf (recover M n).2.1, t ∈ timersOf (liveRun M (M.init (c0 + 1)) insd).2) ∧
+      (∀ t ∈ timersOf (liveRun M (M.init (c0 + 1)) insd).2, t.h = n.chainHeight + 1 →
+        t ∈ timersOf (recover M n).2.1) := by
+  obtain ⟨sd, Ed, trd, p, insd, ⟨ok, _, hEd, htrd⟩, hW, _, _, _, hp, hview, hent, _⟩ := hd
+  obtain ⟨_, r2⟩ := recover_eq M hs n Ed n.chainHeight p rfl hp (by rw [hview])
+  refine ⟨insd, ok, by rw [hent, hEd], ?_, ?_⟩
+  · intro t ht; rw [r2] at ht; rw [← htrd]; exact hW.timersR t ht
+  · intro t ht hh; rw [← htrd] at ht; rw [r2]; exact (hW.timers t ht).2 hh
+
 end Juno.C13
